@@ -139,6 +139,8 @@ def conditions(tier):
                 for m in (2, M):
                     if q and m == M and (has_old or layout not in ("one_line", "module_level")):
                         continue
+                    if not q and m == M and has_old:
+                        m = 3  # pre-filled snapshots: 4 evaluations do not close within the budget (measured: > 20 min per cell)
                     if q and has_old and layout in ("helpers",):
                         continue
                     params = [(f"k{i}", "int") for i in range(m)] + [(f"x{i}", "int") for i in range(m)] + ([(f"c{i}", "int") for i in range(4)] if has_old else [])
@@ -164,7 +166,7 @@ def conditions(tier):
 
 META = {
     "bounds": {"quick": "3 call sites in 4 layouts, <=3 evaluations in every interleaving split over two tests; empty and pre-filled snapshots; 6 argument forms for re-evaluation",
-               "thorough": "<=4 evaluations, more approval subsets"},
+               "thorough": "<=4 evaluations for empty snapshots, <=3 for pre-filled ones (4 did not close within 20 min per cell), 4 approval subsets"},
     "outside": "more call sites / evaluations; executing's node lookup is run for real (key (id(code), f_lasti) is concrete)",
     "assumptions": ["stub: repr of a symbolic int leaf is a name token", "per-site expectation = the documented model of C05 (model_minmax / model_in) applied to the site's own observations"],
 }
